@@ -133,6 +133,41 @@ def rw(sk, *xs):
     return mirror(t)
 
 
+def prefix_assign(sk, *xs):
+    """assignment at a *partial* point: the handle of prefix (p0,) is assigned a fiber; afterwards the values under that prefix are exactly the
+    assigned fiber's (nothing stale survives), every other prefix is undisturbed, and the handle still aliases the stored sub-fiber"""
+    tree, d, n = sk["tree"], sk["depth"], sk["n"]
+    f, pos, _ = build_tree(tree, xs)
+    t = Tensor.fromFiber(rank_ids_for(d), f)
+    f = t.getRoot()
+    p0 = xs[pos]; pos += 1
+    gc, gv = list(xs[pos:pos + n]), list(xs[pos + n:pos + 2 * n]); pos += 2 * n
+    q = xs[pos]
+    l0 = flat(f)
+    r = t.getPayloadRef(p0)
+    if not isinstance(r, Fiber):
+        return fail("partial-point reference is not a fiber")
+    r <<= Fiber(gc, gv)
+    l1 = flat(f)
+    for p, val in l0:
+        if p[0] != p0 and lookup(l1, p, None) != val:
+            return fail("assignment at a prefix disturbed a point under another prefix")
+    under = [(p[1:], val) for p, val in l1 if p[0] == p0]
+    want = [((c,), v) for c, v in zip(gc, gv)]
+    if [(p, v) for p, v in under if v != 0] != [(p, v) for p, v in want if v != 0]:
+        return fail("after assigning a fiber at prefix (p0,) the values under it are not the assigned fiber's")
+    got = t.getPayload(p0, q)
+    exp = 0
+    for c, v in zip(gc, gv):
+        if c == q:
+            exp = v
+    if pv(got) != exp:
+        return fail("read under the assigned prefix returns %r, the assigned fiber holds %r there" % (pv(got), exp))
+    if walk(f, (p0,)) is not r:
+        return fail("handle no longer aliases the stored sub-fiber")
+    return wf(f, d) >= 0 and mirror(t)
+
+
 def rw2(sk, *xs):
     """two successive reference writes then read-back of both (last write wins on equal points)"""
     tree, d = sk["tree"], sk["depth"]
@@ -172,8 +207,8 @@ def startpos(sk, *xs):
     c = xs[2 * n]
     f = Fiber(cs, vs)
     g = Fiber(cs, vs)
-    if not (s < n and cs[s] <= c):
-        return True   # start_pos not legal for this query: nothing is promised
+    if not (s < n and (s == 0 or cs[s] <= c)):
+        return True   # start_pos not legal for this query (getPayload's own assertion: position 0 always is, others need coords[s] <= coord)
     a0 = pv(g.getPayload(c))
     a1 = pv(f.getPayload(c, start_pos=s))
     if a0 != a1:
@@ -192,6 +227,14 @@ def startpos(sk, *xs):
     if f.getPositionRef(c, start_pos=s) != g.getPositionRef(c):
         return fail("getPositionRef differs")
     return True
+
+
+def _mk_prefix(tree, n):
+    ps = names("x", tree_params(tree))
+    pre, _, cn = tree_pre(tree, ps)
+    g = names("g", n)
+    return Ob("prefix-assign/%s/%d" % (str(tree).replace(" ", ""), n), "prefix_assign", dict(tree=tree, depth=2, n=n), ps + ["p0"] + g + names("u", n) + ["q"],
+              pre + chain_pre(g))
 
 
 def rank0(sk, w, v):
@@ -229,4 +272,6 @@ def obligations(tier):
         for s in range(n):
             obs.append(Ob("startpos/%d/%d" % (n, s), "startpos", dict(n=n, s=s), names("c", n) + names("v", n) + ["q"], chain_pre(names("c", n))))
     obs.append(Ob("rank0", "rank0", {}, ["w", "v"], []))
+    for tree, n in ([([1], 1), ([2], 1), ([1, 1], 0), ([], 1)] if q else [([1], 1), ([2], 1), ([1, 1], 0), ([], 1), ([2], 2), ([2, 1], 1), ([1, 0], 2)]):
+        obs.append(_mk_prefix(tree, n))
     return obs
